@@ -73,6 +73,38 @@ type VC struct {
 	pureDefs    map[string]bool
 	definingRec map[string]bool
 	closed      bool // closed-term mode (inline definitions): no fresh constants allowed
+	frameOn     bool
+	frameTg     map[string][]modTarget
+}
+
+// frameGoal: heap component h (current term cur) agrees with the entry state outside the modifies set, for objects
+// that existed at entry. Returns "" if h is not an address-indexed heap or is wholly modifiable.
+func (vc *VC) frameGoal(h, cur string) string {
+	srt, ok := vc.d.heapSort[h]
+	if !ok || !strings.HasPrefix(srt, "(Array Int ") || strings.HasPrefix(h, "$") {
+		return ""
+	}
+	old := vc.stGet(vc.entrySt, h)
+	if cur == old {
+		return ""
+	}
+	var excl, idxExcl []string
+	for _, t := range vc.frameTg[h] {
+		if t.ref == "" {
+			return ""
+		}
+		if t.idx != "" {
+			idxExcl = append(idxExcl, fmt.Sprintf("(and (= r %s) (= j %s))", t.ref, t.idx))
+		} else {
+			excl = append(excl, fmt.Sprintf("(= r %s)", t.ref))
+		}
+	}
+	vc.d.add("rootref", "(declare-fun rootref (Int) Int)\n(assert (forall ((p Int)) (! (=> (> p 0) (= (rootref p) p)) :pattern ((rootref p)))))")
+	if len(idxExcl) > 0 {
+		return fmt.Sprintf("(forall ((r Int) (j Int)) (=> (and (> (rootref r) 0) (< (rootref r) $alloc@0) (not %s) (not %s)) (= (select (select %s r) j) (select (select %s r) j))))",
+			or(excl...), or(idxExcl...), cur, old)
+	}
+	return fmt.Sprintf("(forall ((r Int)) (=> (and (> (rootref r) 0) (< (rootref r) $alloc@0) (not %s)) (= (select %s r) (select %s r))))", or(excl...), cur, old)
 }
 
 type ghostDef struct {
@@ -87,6 +119,10 @@ func (vc *VC) fresh(hint, sort string) string {
 	if vc.closed && vc.failed == nil {
 		vc.failed = fmt.Errorf("fresh value %s needed in closed-term mode", hint)
 	}
+	return vc.freshName(hint, sort)
+}
+
+func (vc *VC) freshName(hint, sort string) string {
 	vc.nfresh++
 	n := sym(fmt.Sprintf("%s!%d", hint, vc.nfresh))
 	vc.declare(n, sort)
@@ -103,13 +139,13 @@ func (vc *VC) declare(name, sort string) {
 
 // define introduces a named constant equal to term (keeps terms small, shows up in models).
 func (vc *VC) define(hint, sort, term string) string {
-	if vc.closed {
+	if vc.closed && strings.Contains(term, "p!") {
 		return term
 	}
 	if len(term) < 24 && !strings.Contains(term, " ") {
 		return term
 	}
-	n := vc.fresh(hint, sort)
+	n := vc.freshName(hint, sort)
 	vc.defs = append(vc.defs, fmt.Sprintf("(assert (= %s %s))", n, term))
 	return n
 }
@@ -430,6 +466,7 @@ type Frame struct {
 	specEnv  *SpecEnv
 	args     [][]string
 	privAlloc map[*ssa.Alloc]bool
+	initGlobals []*ssa.Global
 }
 
 type loopInfo struct {
@@ -441,6 +478,7 @@ type loopInfo struct {
 	entrySt  *State // state at loop head after havoc (for decreases etc.)
 	decr0    string
 	phis     []*ssa.Phi
+	havocked []string
 }
 
 func (vc *VC) newFrame(fn *ssa.Function, parent *Frame) *Frame {
@@ -1003,6 +1041,7 @@ func (fr *Frame) enterLoop(li *loopInfo, pc string, st *State) (string, *State) 
 		}
 	}
 	// 2. havoc
+	preSt := st
 	st = st.clone()
 	names, all := fr.loopWrites(li)
 	if all {
@@ -1017,6 +1056,7 @@ func (fr *Frame) enterLoop(li *loopInfo, pc string, st *State) (string, *State) 
 					break
 				}
 				st.m[h] = vc.fresh(h, vc.sortOfState(h))
+				li.havocked = append(li.havocked, h)
 			}
 		}
 		for n := range names {
@@ -1031,6 +1071,7 @@ func (fr *Frame) enterLoop(li *loopInfo, pc string, st *State) (string, *State) 
 				continue
 			}
 			st.m[n] = vc.fresh(n, vc.sortOfState(n))
+			li.havocked = append(li.havocked, n)
 		}
 		// ghost vars assigned by site clauses inside the loop
 		for _, g := range fr.loopGhostWrites(li) {
@@ -1046,6 +1087,17 @@ func (fr *Frame) enterLoop(li *loopInfo, pc string, st *State) (string, *State) 
 		n := vc.fresh(fr.prefix+phi.Name(), vc.d.sortOf(phi.Type()))
 		fr.vals[phi] = []string{n}
 		pc = and(pc, vc.typeAssume(n, phi.Type(), st))
+	}
+	// implicit frame invariant: the function's modifies clause holds at every loop head
+	if fr.top && vc.frameOn {
+		for _, h := range li.havocked {
+			if g := vc.frameGoal(h, vc.stGet0(preSt, h)); g != "" {
+				vc.addObl(&Obligation{Name: fmt.Sprintf("loop%d:init:frame:%s", li.ordinal, h), Kind: "loop-init", PC: pc, Goal: g, Src: "implicit frame invariant for " + h})
+			}
+			if g := vc.frameGoal(h, st.m[h]); g != "" {
+				pc = and(pc, g)
+			}
+		}
 	}
 	// 3. assume invariant
 	if spec != nil {
@@ -1079,6 +1131,13 @@ func (fr *Frame) enterLoop(li *loopInfo, pc string, st *State) (string, *State) 
 func (fr *Frame) backEdge(li *loopInfo, from *ssa.BasicBlock, cond string, st *State) {
 	vc := fr.vc
 	spec := li.spec
+	if fr.top && vc.frameOn {
+		for _, h := range li.havocked {
+			if g := vc.frameGoal(h, vc.stGet0(st, h)); g != "" {
+				vc.addObl(&Obligation{Name: fmt.Sprintf("loop%d:preserve:frame:%s@b%d", li.ordinal, h, fr.backOrdinal(li, from)), Kind: "loop-preserve", PC: cond, Goal: g, Src: "implicit frame invariant for " + h})
+			}
+		}
+	}
 	if spec == nil {
 		return
 	}
